@@ -28,7 +28,7 @@ def run_impl(c, thr):
     X = pd.DataFrame(np.zeros((c["n"], len(cols))))
     d = CircularBinarySegmentation(anomaly_score=ts.FnLocalScore(lambda j, s, a, b, e: cols[j](s, a, b, e), len(cols)),
                                    threshold_scale=1.0, min_segment_length=c["m"], max_interval_length=c["maxlen"],
-                                   growth_factor=c["g"]).fit(X)
+                                   growth_factor=c["g"]).fit(pd.DataFrame(np.zeros((len(X) + (len(X) * 7 + 3) % 5, X.shape[1]))))
     d.threshold_ = float(thr)
     y = d.predict(X)
     iv = y["ilocs"].array
@@ -160,4 +160,32 @@ def run(ctx):
                 ctx.violation(f"CircularBinarySegmentation(L2Cost), p={p}: candidate [{s},{e}) has score {got}, the maximum of the local anomaly score (definition from the "
                               f"rows, summed over columns) over the admissible inner intervals is {want}", dict(inp, candidate=[s, e], score=got, definition=want),
                               {"what": "scores-table-vs-definition", "multi_column": p > 1})
+                break
+    # ---- a user-defined cost (sum of absolute deviations from the median, reads self._X when evaluated) through LocalAnomalyScore ----
+    from harness.c06 import absdev as _absdev, make_user_costs as _mk
+    _AbsDev = _mk()[3]
+    for it in range(ctx.n(8, 60)):
+        p = ctx.rng.choice([1, 2])
+        n = ctx.rng.randint(9, 15)
+        m = ctx.rng.choice([1, 2])
+        Xn = _np.asarray([[float(ctx.rng.randint(-3, 3)) for _ in range(p)] for _ in range(n)])
+        a0 = ctx.rng.randint(1, n - 4)
+        Xn[a0:a0 + 3] += ctx.rng.choice([8.0, -9.0])
+        d = CBSD(anomaly_score=_AbsDev(), min_segment_length=m, max_interval_length=ctx.rng.choice([2 * m + 2, 10]), threshold_scale=0.3).fit(_pd.DataFrame(Xn))
+        d.predict(_pd.DataFrame(Xn))
+        ctx.case({"user-cbs": it, "X": Xn.tolist(), "m": m}, nontrivial=True)
+        for _, row in d.scores.iterrows():
+            s, e = int(row["interval_start"]), int(row["interval_end"])
+            best = None
+            for a in range(s + 1, e):
+                for z in range(a + m, e):
+                    if (a - s) + (e - z) >= m:
+                        v = sum(_absdev(Xn[s:e, j]) - _absdev(Xn[a:z, j]) - _absdev(list(Xn[s:a, j]) + list(Xn[z:e, j])) for j in range(p))
+                        if best is None or v > best:
+                            best = v
+            want = 0.0 if best is None else float(best)
+            if abs(float(row["score"]) - want) > 1e-9:
+                ctx.violation(f"CircularBinarySegmentation(user-defined cost): candidate [{s},{e}) has score {float(row['score'])}, the maximum of the local anomaly score "
+                              f"computed from the cost's definition over the admissible inner intervals is {want}",
+                              {"n": n, "p": p, "m": m, "X": Xn.tolist(), "candidate": [s, e]}, {"what": "scores-table-vs-definition", "user_cost": True})
                 break
